@@ -86,7 +86,7 @@ def observe(vh, db, seed, profile):
     raise vlib.MachineryError("store-observe printed nothing: %s" % p.stderr[-500:])
 
 
-def session_points(sess):
+def session_points(sess, root=None):
     """injection points of a recorded clean session: the FS calls between the W_Begin and W_Return markers"""
     pts = []
     inside = False
@@ -96,7 +96,11 @@ def session_points(sess):
             continue
         if inside and c["i"] in sess.raw_counts:
             name, k = sess.raw_counts[c["i"]]
-            pts.append({"raw": name, "when": k, "call": c["name"], "path": c.get("path", "").rsplit("/", 1)[-1]})
+            pt = {"raw": name, "when": k, "call": c["name"], "path": c.get("path", "").rsplit("/", 1)[-1]}
+            if c["name"] == "write" and c.get("data") is not None and c["path"].endswith(".gpf") and c["n"] >= 2:
+                # enough is known to synthesise a torn write of this call (prefix of its data at its offset)
+                pt["torn"] = {"rel": os.path.relpath(c["path"], root) if root else None, "pos": c["pos"], "data": c["data"]}
+            pts.append(pt)
     return pts
 
 
@@ -137,6 +141,30 @@ def run_experiment(vh, base, hist, upto_state, s_idx, point, mode, errno, seed, 
             rest = hist[s_idx + 1:]
             s2 = run_session(vh, db, rest, seed, enc, profile, wd, "rest", obs=True, obs0=True)
             ev += s2.events
+        elif mode == "torn":
+            # the child is killed on entry of a column write(); a strict prefix of that call's data is then
+            # put into the file at the call's offset: the state a power-cut / kill inside the write leaves
+            inj = "%s:signal=SIGKILL:when=%d" % (point["raw"], point["when"])
+            s = run_session(vh, db, [hist[s_idx]], seed, enc, profile, wd, "inj", inject=inj)
+            if not s.killed:
+                x.error = "child was not killed (point %s)" % point
+                return x
+            t = point["torn"]
+            k = errno  # number of bytes that made it (passed in the errno slot)
+            tgt = os.path.join(db, os.path.relpath(os.path.join(point["dbroot"], t["rel"]), point["dbroot"]))
+            # the day directory may carry another suffix than in the recording: locate the file by its base name
+            cand = [os.path.join(dp, f) for dp, _, fs_ in os.walk(db) for f in fs_ if f == os.path.basename(t["rel"])]
+            if len(cand) != 1:
+                x.error = "torn write target not found"
+                return x
+            with open(cand[0], "r+b") as fh:
+                fh.seek(t["pos"])
+                fh.write(t["data"][:k])
+            ev += [e for e in s.events if e["ev"] != "Crash"]
+            ev.append({"ev": "TornWrite", "k": k})
+            rest = hist[s_idx + 1:]
+            s2 = run_session(vh, db, rest, seed, enc, profile, wd, "rest", obs=True, obs0=True)
+            ev += s2.events
         elif mode == "fault":
             # the faulted session runs in a child of its own so that the injection can only hit the writer
             inj = "%s:error=%s:when=%d" % (point["raw"], errno, point["when"])
@@ -171,7 +199,7 @@ def prepare_states(vh, base, hist, seed, enc, profile):
         if s.rc != 0:
             raise vlib.MachineryError("clean session %s failed rc=%s" % (ids, s.rc))
         recorded.append(s.events)
-        points.append(session_points(s))
+        points.append(session_points(s, db))
     return states, recorded, points
 
 
